@@ -824,6 +824,20 @@ theorem reviveMods_inv {fuel : Nat} {x : Nat} : ∀ (gs : List Nat) (s s' : Stat
       · rename_i e hf
         exact applyMod_inv hinv hf ha
 
+theorem J_of_LC {s : State} (hlc : LC s) (a : List Nat) : J s a a :=
+  fun e he hl hn => absurd (hlc e he hl) hn
+
+theorem reviveTail_inv {fuel : Nat} {x : Nat} {e : Entry} {s1 s' : State}
+    (hinv : Inv s1) (h : reviveTail fuel x e s1 = .ok s') : Inv s' := by
+  unfold reviveTail at h
+  split at h
+  · exact reviveMods_inv _ _ _ hinv h
+  · split at h
+    · cases h
+    · rename_i s2 ha
+      obtain ⟨h1, h2⟩ := applyMemberOf_LC (J_of_LC hinv.1 _) ha
+      exact reviveMods_inv _ _ _ ⟨h1, wf_of_ids h2 hinv.2⟩ h
+
 theorem opRevive_inv {fuel : Nat} {s s' : State} {x : Nat}
     (hinv : Inv s) (hsafe : SafeOp s (.revive x)) (h : opRevive fuel s x = .ok s') : Inv s' := by
   unfold opRevive at h
@@ -837,7 +851,7 @@ theorem opRevive_inv {fuel : Nat} {s s' : State} {x : Nat}
       · rename_i s1 ha
         have ha' : applyMemberOf fuel (s.map (revUpd x)) [x] = some s1 := ha
         obtain ⟨h1, h2⟩ := applyMemberOf_LC (revive_J hinv.1 hsafe) ha'
-        exact reviveMods_inv _ _ _ ⟨h1, wf_of_ids (h2.trans (ids_map' (revUpd_id x) s)) hinv.2⟩ h
+        exact reviveTail_inv ⟨h1, wf_of_ids (h2.trans (ids_map' (revUpd_id x) s)) hinv.2⟩ h
 
 theorem step_inv {fuel : Nat} {s s' : State} {op : Op}
     (hinv : Inv s) (hsafe : SafeOp s op) (h : step fuel s op = .ok s') : Inv s' := by
